@@ -276,15 +276,21 @@ func (c *Client) do(call *Call, apply func() error) error {
 func (c *Client) Get(_ context.Context, key client.ObjectKey, obj client.Object, _ ...client.GetOption) error {
 	kind := c.S.KindOf(obj)
 	call := &Call{Verb: "get", Kind: kind, NS: key.Namespace, Name: key.Name}
-	return c.do(call, func() error {
+	// the caller's object is only filled when the answer arrives (a lost reply leaves it untouched)
+	var got client.Object
+	err := c.do(call, func() error {
 		o, err := c.S.get(kind, key.Namespace, key.Name)
 		if err != nil {
 			return err
 		}
 		call.Objs = []client.Object{o}
-		setInto(obj, o)
+		got = o
 		return nil
 	})
+	if err == nil && got != nil {
+		setInto(obj, got)
+	}
+	return err
 }
 
 // List implements client.Reader.
@@ -296,27 +302,37 @@ func (c *Client) List(_ context.Context, list client.ObjectList, opts ...client.
 	if lo.LabelSelector != nil {
 		call.Selector = lo.LabelSelector.String()
 	}
-	return c.do(call, func() error {
-		items := c.S.list(kind, lo.Namespace, lo.LabelSelector)
+	var items []client.Object
+	err := c.do(call, func() error {
+		items = c.S.list(kind, lo.Namespace, lo.LabelSelector)
 		call.Objs = items
-		return setListItems(list, items)
+		return nil
 	})
+	if err == nil {
+		return setListItems(list, items)
+	}
+	return err
 }
 
 // Create implements client.Writer.
 func (c *Client) Create(_ context.Context, obj client.Object, _ ...client.CreateOption) error {
 	kind := c.S.KindOf(obj)
 	call := &Call{Verb: "create", Kind: kind, NS: obj.GetNamespace(), Name: obj.GetName(), Submitted: obj.DeepCopyObject().(client.Object)}
-	return c.do(call, func() error {
+	var stored client.Object
+	err := c.do(call, func() error {
 		st, err := c.S.create(kind, obj)
 		if err != nil {
 			return err
 		}
 		call.Post = st
 		call.Name = st.GetName()
-		setInto(obj, st)
+		stored = st
 		return nil
 	})
+	if err == nil && stored != nil {
+		setInto(obj, stored)
+	}
+	return err
 }
 
 // Update implements client.Writer.
@@ -331,16 +347,21 @@ func (c *Client) update(obj client.Object, sub bool) error {
 		verb = "status-update"
 	}
 	call := &Call{Verb: verb, Kind: kind, NS: obj.GetNamespace(), Name: obj.GetName(), Submitted: obj.DeepCopyObject().(client.Object)}
-	return c.do(call, func() error {
+	var stored client.Object
+	err := c.do(call, func() error {
 		old, st, err := c.S.update(kind, obj, sub)
 		call.Pre = old
 		if err != nil {
 			return err
 		}
 		call.Post = st
-		setInto(obj, st)
+		stored = st
 		return nil
 	})
+	if err == nil && stored != nil {
+		setInto(obj, stored)
+	}
+	return err
 }
 
 // Patch implements client.Writer (merge patches only, which is all the repository uses).
@@ -355,16 +376,21 @@ func (c *Client) Patch(_ context.Context, obj client.Object, patch client.Patch,
 		return err
 	}
 	call.PatchData = data
-	return c.do(call, func() error {
+	var stored client.Object
+	err = c.do(call, func() error {
 		old, st, err := c.S.patchMerge(kind, obj, data)
 		call.Pre = old
 		if err != nil {
 			return err
 		}
 		call.Post = st
-		setInto(obj, st)
+		stored = st
 		return nil
 	})
+	if err == nil && stored != nil {
+		setInto(obj, stored)
+	}
+	return err
 }
 
 // Delete implements client.Writer.
